@@ -25,6 +25,9 @@
 (*                 equal; the old list is accepted there (flag              *)
 (*                 update.seteq); pairs whose prescribed entry cannot be    *)
 (*                 decoded are not judged (flag update.undecodable)         *)
+(*                 ; and a free-form dict attribute (`data`) v2 was written *)
+(*                 with -- {} included -- is read back equal (DictsKept);   *)
+(*                 the same holds for C15.lossless on (x, N(x))             *)
 (*  C15.idLen      a unique name ends in a 13-character id; a generated id  *)
 (*                 has 13 characters                                        *)
 (*  drift.format   the real encoding is the string Codec.tla's format gives *)
@@ -55,14 +58,16 @@ Verdict(f, items, j) ==
      \cup Fl2("C15.update",
               (f = "ldapupd" /\ ~it.undecodable) =>
                  /\ it.ok
-                 /\ (Same(it.d, it.want) \/ (it.seteq /\ Same(it.d, it.alt))))
+                 /\ (Same(it.d, it.want) \/ (it.seteq /\ Same(it.d, it.alt)))
+                 /\ DictsKept(it.v.v2, it.d))
      \cup Fl2("C15.injective",
               \A m \in 1..(j - 1) :
                  (f # "ldapupd" /\ items[m].enc = it.enc /\ items[m].ok /\ it.ok)
                    => Same(IdentOf(f, items[m]), IdentOf(f, it)))
      \cup Fl2("C15.idLen", /\ (f = "uniq" => Len(IdOfUnique(it.enc)) = 13)
                            /\ (f = "uid" => Len(it.enc) = 13))
-     \cup Fl2("C15.lossless", (f = "ldap" /\ it.ok) => Lossless(it.v.obj, it.n.obj))
+     \cup Fl2("C15.lossless", (f = "ldap" /\ it.ok) => /\ Lossless(it.v.obj, it.n.obj)
+                                                     /\ DictsKept(it.v.obj, it.n.obj))
      \cup Fl2("drift.format",
               ModelOf(f) \in NameFormats =>
                  /\ Enc(f, it.v) = it.enc
